@@ -1,13 +1,14 @@
 '''C17 Bus and multi-table stores.'''
 from sfa.report import Ctx
+from sfa.rules import busrules
 from sfa.rules import table
 
 LEVEL_TEXT = (
-    'Static decision of structural clauses of C17: every override of read/read_many/labels/write in every Store subclass carries the matching coherence decorator; the decorators check before / refresh after the wrapped call; _mtime_coherent raises StoreFileMutation on both the changed and the vanished branch; _last_modified is written only by __init__ and _mtime_update; Bus._derive propagates store, config and max_persist. Not decided: contents written by each format; mtime granularity; optional formats absent here.')
+    'Static decision of structural clauses of C17: every override of read/read_many/labels/write in every Store subclass carries the matching coherence decorator; the decorators check before / refresh after the wrapped call; _mtime_coherent raises StoreFileMutation on both the changed and the vanished branch; _last_modified is written only by __init__ and _mtime_update; Bus._derive propagates store, config and max_persist; every Bus method that hands out elements of the backing Series loads them first on every path (or filters placeholders); the load and eviction steps of _update_series_cache_iloc update array cell / loaded flag / LRU entry / count together, evict oldest-first exactly when the count exceeds max_persist, after the LRU touch; no loop uses its iterable as a lookup key. Not decided: contents written by each format; mtime granularity; optional formats absent here.')
 
 CLAIM = dict(
     text=LEVEL_TEXT,
-    technique='decorator-table exhaustiveness over Store subclasses + who-may-write check',
+    technique='decorator-table exhaustiveness + who-may-write + load-before-expose must-dataflow + LRU lock-step structure check',
     design_ref='DESIGN.md section 2.G and section 3 C17',
 )
 
@@ -15,3 +16,6 @@ CLAIM = dict(
 def run(ctx: Ctx) -> None:
     table.t6_store(ctx)
     table.t9_derive(ctx, which=('Bus',))
+    busrules.bus_load_before_expose(ctx)
+    busrules.bus_lru(ctx)
+    busrules.loop_iterable_as_key(ctx)
